@@ -17,8 +17,8 @@ def gen_comp_spec(rng):
     from .sched import gen_shape
 
     if rng.random() < 0.03:
-        # a LARGE pipeline (50..70 call sites, well over a hundred ExecNodes with their constants): compose walks it like a small one
-        sp = gen_shape(rng, nmin=50, nmax=70, flags=True, reuse=True, mc_max=3, seq_rate=0.1, max_deps=2)
+        # a LARGE pipeline (90..130 call sites, well over a hundred ExecNodes with their constants): compose walks it like a small one
+        sp = gen_shape(rng, nmin=90, nmax=130, flags=True, reuse=True, mc_max=3, seq_rate=0.1, max_deps=2)
     else:
         sp = gen_shape(rng, nmin=2, nmax=7, flags=True, reuse=True, mc_max=3, seq_rate=0.1)
     npar = rng.randint(0, 3)
